@@ -68,7 +68,7 @@ out.append("The changes were requested in ten rounds, each with a different stee
            "choice within the property; (3) a second, different mechanism; (4) less-travelled entry points, overloads and option\n"
            "combinations; (5) size- or count-dependent behaviour; (6) parameter extremes and exact numeric coincidences;\n"
            "(7) code compiled under one build configuration only; (8) free choice outside the list of ideas already used;\n"
-           "(9) shared low-level helpers; (10) adversarial against a capable property-based tester. Two proposals were\n"
+           "(9) shared low-level helpers; (10) adversarial against a capable property-based tester. Three proposals were\n"
            "discarded as duplicates of stored changes (the same edit offered again). Of the %d stored changes, %d are detected\n"
            "by the quick check of their property; %d of those were missed when they arrived and are detected since the check\n"
            "was strengthened (the table says how, and section 5.0 lists the generator classes and routes this produced);\n"
